@@ -319,6 +319,22 @@ def build_debug_frame(fdes, arch, order=None, n_cies=1, mixed=False):
                 + fde_insns(f, arch))
         body = pad_to_len(body)
         return struct.pack("<I", len(body)) + body
+    if mixed == "fde-first" and order:
+        # the section begins with an FDE; its CIE (and all others) come later - .debug_frame refers to CIEs by
+        # absolute section offset, so forward references are fine (assemblers emit them for hand-written CFI)
+        first_len = len(fde(order[0], 0))
+        cies = []
+        pos = first_len
+        for c in range(n_cies):
+            cies.append(pos); pos += len(cie())
+        offsets[order[0]] = 0
+        out += fde(order[0], cies[0])
+        for c in range(n_cies):
+            out += cie()
+        for j, i in enumerate(order[1:], 1):
+            offsets[i] = len(out)
+            out += fde(i, cies[j % n_cies])
+        return out, offsets
     if mixed:                                              # CIEs first, FDEs interleaved over them
         cies = []
         for c in range(n_cies):
@@ -410,7 +426,8 @@ class Script:
         hdr_svma = base_svma + 0x300000 if hdr_svma is None else hdr_svma
         secs = []
         if pres == "debug":
-            data, offs = build_debug_frame(sec_fdes, self.arch, None, n_cies, mixed)
+            data, offs = build_debug_frame(sec_fdes, self.arch, None, n_cies,
+                                           "fde-first" if mixed and rng is not None and len(sec_fdes) % 2 == 1 else mixed)
             secs.append((".debug_frame", data, None))
         else:
             text_svma, got_svma = base_svma + 0x800, base_svma + 0x280000
